@@ -409,20 +409,20 @@ func c02Lookups(c *core.Ctx, m *stun.Message, rm *ref.Msg, in []byte) {
 			if gv, gerr := mm.Get(at); gerr != nil || !bytes.Equal(gv, cur.Value) {
 				bad = "Get inside callback"
 			}
-			// lookups of OTHER types from inside the callback (they see the callback's view; whatever they find or
-			// remember must not outlive the walk: checked below, after ForEach has returned)
-			for _, ot := range order {
-				if ot != t {
-					_, _ = mm.Get(stun.AttrType(ot))
-					_ = mm.Contains(stun.AttrType(ot))
-				}
-			}
 			// a nested ForEach (over another type) inside the callback is ordinary use and must restore its own view
 			if len(order) > 1 {
 				window := mm.Attributes
 				_ = mm.ForEach(stun.AttrType(order[(len(visited)+1)%len(order)]), func(*stun.Message) error { return nil })
 				if !sameAttrSlice(window, mm.Attributes) {
 					bad = "nested ForEach changed the outer callback's view"
+				}
+			}
+			// lookups of OTHER types from inside the callback (they see the callback's view; whatever they find or
+			// remember must not outlive the walk: checked below, after ForEach has returned)
+			for _, ot := range order {
+				if ot != t {
+					_, _ = mm.Get(stun.AttrType(ot))
+					_ = mm.Contains(stun.AttrType(ot))
 				}
 			}
 			visited = append(visited, idxs[k])
@@ -435,6 +435,23 @@ func c02Lookups(c *core.Ctx, m *stun.Message, rm *ref.Msg, in []byte) {
 		if !sameAttrSlice(before, m.Attributes) {
 			c.Violate("foreach-restore", "ForEach-restore", map[string]interface{}{"input_hex": core.Hex(in), "type": t, "mode": "complete"})
 			m.Attributes = before
+		}
+		// right after the walk (nothing else in between): lookups of the other types, the one the callback looked up last
+		// first - whatever a lookup inside the callback's narrowed view left behind must not answer for the full list
+		for k := len(order) - 1; k >= 0; k-- {
+			ot := order[k]
+			if ot == t {
+				continue
+			}
+			gv, gerr := m.Get(stun.AttrType(ot))
+			if oi := types[ot]; len(oi) > 0 {
+				first := rm.TLVs[oi[0]]
+				if gerr != nil || !bytes.Equal(gv, in[first.Off:first.Off+first.Len]) || (len(gv) > 0 && unsafe.SliceData(gv) != unsafe.SliceData(m.Attributes[oi[0]].Value)) {
+					c.Violate("get-first", "Get-first:right-after-ForEach", map[string]interface{}{"input_hex": core.Hex(in), "walked_type": t, "looked_up_type": ot, "got": core.Hex(gv)})
+				}
+			} else if gerr == nil {
+				c.Violate("get-absent", "Get-absent:right-after-ForEach", map[string]interface{}{"input_hex": core.Hex(in), "type": ot})
+			}
 		}
 		// ForEach, callback fails at the k-th visit / panics at the k-th visit
 		for k := 0; k < len(idxs) && k < 3; k++ {
